@@ -15,6 +15,20 @@
 #include <cstring>
 #include <map>
 
+// optional happens-before race detector (racedet.cpp); absent unless linked
+extern "C" {
+void rd_enable(int) __attribute__((weak));
+void rd_release(const void *) __attribute__((weak));
+void rd_acquire(const void *) __attribute__((weak));
+void rd_fork(int, int) __attribute__((weak));
+void rd_thread_begin(int) __attribute__((weak));
+void rd_thread_end(int) __attribute__((weak));
+void rd_join(int, int) __attribute__((weak));
+int rd_report_count() __attribute__((weak));
+int rd_report(int, char *, int) __attribute__((weak));
+void rd_ignore(int) __attribute__((weak));
+}
+
 namespace {
 using namespace vs;
 
@@ -131,7 +145,14 @@ void finish_run(int result, Th *me) {
 
 // Decide who runs next. Returns when `me` is to perform its pending op (or, for a finished
 // thread, after the baton was handed on).
+void dispatch_inner(Th *me);
+// controller and harness hooks run in scheduler context: their memory accesses are not part of the program
 void dispatch(Th *me) {
+    if (rd_ignore) rd_ignore(1);
+    dispatch_inner(me);
+    if (rd_ignore) rd_ignore(-1);
+}
+void dispatch_inner(Th *me) {
     std::vector<ThreadView> vv;
     for (;;) {
         views(vv);
@@ -200,7 +221,9 @@ void applied(Th *me, int aux = 0) {
     const char *l = me->label;
     me->pending = OP_NONE;
     ++tl_pass;
+    if (rd_ignore) rd_ignore(1);
     g_ctl->on_op(me->id, k, o, o2, l, aux);
+    if (rd_ignore) rd_ignore(-1);
     --tl_pass;
 }
 
@@ -208,8 +231,10 @@ void *trampoline(void *p) {
     Th *me = static_cast<Th *>(p);
     tl_me = me;
     while (sem_wait(&me->sem) != 0 && errno == EINTR) {}
+    if (rd_thread_begin) rd_thread_begin(me->id);
     applied(me);  // OP_START
     void *ret = me->fn(me->arg);
+    if (rd_thread_end) rd_thread_end(me->id);
     set_pending(me, OP_EXIT);
     me->finished = true;
     applied(me);
@@ -223,6 +248,7 @@ int do_cond_wait(pthread_cond_t *c, pthread_mutex_t *m, bool timed) {
     set_pending(me, OP_CWAIT, c, m);
     dispatch(me);
     // atomic release + enqueue
+    if (rd_release) rd_release(m);
     g_owner[m] = -1;
     --me->held;
     g_waiters[c].push_back(me->id);
@@ -234,6 +260,7 @@ int do_cond_wait(pthread_cond_t *c, pthread_mutex_t *m, bool timed) {
     dispatch(me);
     g_owner[m] = me->id;
     ++me->held;
+    if (rd_acquire) rd_acquire(m);
     bool to = me->timedout;
     me->woken = me->timedout = me->timed = false;
     applied(me, to ? 1 : 0);
@@ -276,6 +303,7 @@ int run(Controller &ctl, const std::function<void()> &body) {
     g_over = false;
     sem_init(&g_done, 0, 0);
     g_ctl = &ctl;
+    if (rd_enable) rd_enable(1);
     Th *me = new Th;
     me->id = 0;
     sem_init(&me->sem, 0, 0);
@@ -302,6 +330,16 @@ bool active() { return g_active; }
 int self() { return tl_me ? tl_me->id : -1; }
 int64_t clock_ms() { return g_clock_ms; }
 int thread_count() { return (int) g_threads.size(); }
+
+std::vector<std::string> race_reports() {
+    std::vector<std::string> v;
+    if (!rd_report_count) return v;
+    char buf[512];
+    for (int i = 0; i < rd_report_count(); ++i)
+        if (rd_report(i, buf, sizeof buf) > 0) v.push_back(buf);
+    return v;
+}
+bool race_detector_linked() { return rd_report_count != nullptr; }
 
 int mutex_owner(const void *m) {
     auto it = g_owner.find(m);
@@ -352,6 +390,7 @@ int pthread_mutex_lock(pthread_mutex_t *m) {
     dispatch(me);
     g_owner[m] = me->id;
     ++me->held;
+    if (rd_acquire) rd_acquire(m);
     applied(me);
     return 0;
 }
@@ -367,6 +406,7 @@ int pthread_mutex_trylock(pthread_mutex_t *m) {
     if (free_) {
         g_owner[m] = me->id;
         ++me->held;
+        if (rd_acquire) rd_acquire(m);
     }
     applied(me, free_ ? 1 : 0);
     return free_ ? 0 : EBUSY;
@@ -378,6 +418,7 @@ int pthread_mutex_unlock(pthread_mutex_t *m) {
     Th *me = tl_me;
     // not a yield point: releasing cannot be disabled and the next intercepted operation yields
     set_pending(me, OP_UNLOCK, m);
+    if (rd_release) rd_release(m);
     g_owner[m] = -1;
     --me->held;
     applied(me);
@@ -461,6 +502,7 @@ int pthread_create(pthread_t *th, const pthread_attr_t *attr, void *(*fn)(void *
         _exit(96);
     }
     *th = n->real;
+    if (rd_fork) rd_fork(me->id, n->id);
     applied(me, n->id);
     return 0;
 }
@@ -478,6 +520,7 @@ int pthread_join(pthread_t th, void **ret) {
     ++tl_pass;
     int rc = real_fn(real, "pthread_join")(th, ret);
     --tl_pass;
+    if (rd_join) rd_join(me->id, target);
     applied(me, target);
     return rc;
 }
